@@ -274,10 +274,10 @@ impl Transport for LocalTransport {
 
                 // Preserve modification time
                 if let Ok(mtime) = source_meta.modified() {
-                    let _ = filetime::set_file_mtime(
+                    filetime::set_file_mtime(
                         &dest,
                         filetime::FileTime::from_system_time(mtime),
-                    );
+                    )?;
                 }
 
                 tracing::debug!(
@@ -319,8 +319,7 @@ impl Transport for LocalTransport {
 
             // Preserve modification time
             if let Ok(mtime) = source_meta.modified() {
-                let _ =
-                    filetime::set_file_mtime(&dest, filetime::FileTime::from_system_time(mtime));
+                filetime::set_file_mtime(&dest, filetime::FileTime::from_system_time(mtime))?;
             }
 
             Ok(bytes_written)
@@ -430,10 +429,10 @@ impl Transport for LocalTransport {
 
                 // Preserve modification time (as copy_file does)
                 if let Ok(mtime) = source_meta.modified() {
-                    let _ = filetime::set_file_mtime(
+                    filetime::set_file_mtime(
                         &dest,
                         filetime::FileTime::from_system_time(mtime),
-                    );
+                    )?;
                 }
 
                 return Ok(TransferResult::new(bytes_written));
@@ -478,10 +477,10 @@ impl Transport for LocalTransport {
 
                         // Preserve modification time (as copy_file does)
                         if let Ok(mtime) = source_meta.modified() {
-                            let _ = filetime::set_file_mtime(
+                            filetime::set_file_mtime(
                                 &dest,
                                 filetime::FileTime::from_system_time(mtime),
-                            );
+                            )?;
                         }
 
                         return Ok(TransferResult::new(bytes_written));
@@ -839,7 +838,7 @@ impl Transport for LocalTransport {
 
             // Preserve modification time (as copy_file does); otherwise the next run sees a changed file
             if let Ok(mtime) = source_meta.modified() {
-                let _ = filetime::set_file_mtime(&dest, filetime::FileTime::from_system_time(mtime));
+                filetime::set_file_mtime(&dest, filetime::FileTime::from_system_time(mtime))?;
             }
 
             let total_blocks = bytes_written.div_ceil(block_size as u64) as usize;
